@@ -1,6 +1,9 @@
 (* Proofs/PathUrlBase.v - the shape of base_dir's answers, and url_ref on
    "directory URL ++ escaped relative path": parses, absolute, no fragment,
-   no userinfo - except when the base's path begins with "//". *)
+   no userinfo - except when the base's path begins with "//".
+   The class of bases: scheme "://" authority path ["?" query] ["#" fragment],
+   path characters letters digits - _ ~ / . , no segment equal to "." or "..";
+   query and fragment are dropped first (strip_query_fragment). *)
 From Coq Require Import Lia ZifyN ZifyNat ZifyBool.
 From WP Require Import Base.Prelude Model.Url Model.UrlRef Model.Cbor Model.PathUrl.
 From WP Require Import Proofs.BaseLemmas Proofs.PathUrlEscape.
@@ -12,6 +15,9 @@ Open Scope N_scope.
 Ltac bits c tac :=
   destruct c as [|c]; [try tac|];
   do 7 (try (destruct c as [c|c|]; try tac)).
+
+(* right-associate appends *)
+Ltac reassoc := repeat first [rewrite <- app_assoc | progress cbn [app]].
 
 (* ---- split_at ----------------------------------------------------------- *)
 Definition none_sat (p : N -> bool) (s : bytes) : bool := forallb (fun c => negb (p c)) s.
@@ -73,6 +79,206 @@ Lemma none_sat_weaken (p : N -> bool) (q : N -> bool) (s : bytes) :
 Proof.
   intros Hpq Hs. unfold none_sat. rewrite forallb_forall in *. intros c Hc.
   rewrite (Hpq c (Hs c Hc)). reflexivity.
+Qed.
+
+(* ---- strip_query_fragment -------------------------------------------------- *)
+(* neither '?' nor '#' *)
+Definition no_qf (s : bytes) : Prop := ~ In 63 s /\ ~ In 35 s.
+(* empty, or something that begins with '?' or '#' *)
+Definition qf_ok (qf : bytes) : Prop := qf = [] \/ exists c r, qf = c :: r /\ (c = 63 \/ c = 35).
+
+Lemma none_sat_app (p : N -> bool) (a b : bytes) :
+  none_sat p (a ++ b) = none_sat p a && none_sat p b.
+Proof. unfold none_sat. apply forallb_app. Qed.
+
+Lemma split_at_app_none (p : N -> bool) (x y : bytes) : forall acc,
+  none_sat p x = true ->
+  split_at p (x ++ y) acc = (rev acc ++ x ++ fst (split_at p y []), snd (split_at p y [])).
+Proof.
+  intros acc Hx. destruct (first_sat p y) as [Hn|[a [c [r [E [Ha Hc]]]]]].
+  - rewrite (split_at_none p y [] Hn). cbn [fst snd rev app].
+    apply split_at_none. rewrite none_sat_app, Hx, Hn. reflexivity.
+  - subst y. rewrite (split_at_some p a c r [] Ha Hc). cbn [fst snd rev app].
+    rewrite app_assoc. rewrite (split_at_some p (x ++ a) c r acc); [|rewrite none_sat_app, Hx, Ha; reflexivity|exact Hc].
+    reflexivity.
+Qed.
+
+Lemma strip_app (x y : bytes) :
+  no_qf x -> strip_query_fragment (x ++ y) = x ++ strip_query_fragment y.
+Proof.
+  intros [H63 H35]. apply none_sat_not_in in H63. apply none_sat_not_in in H35.
+  unfold strip_query_fragment.
+  rewrite (split_at_app_none (N.eqb 35) x y [] H35). cbn [fst rev app].
+  rewrite (split_at_app_none (N.eqb 63) x _ [] H63). reflexivity.
+Qed.
+
+Lemma strip_nil : strip_query_fragment [] = [].
+Proof. reflexivity. Qed.
+
+Lemma strip_no_qf (x : bytes) : no_qf x -> strip_query_fragment x = x.
+Proof.
+  intros H. rewrite <- (app_nil_r x) at 1. rewrite (strip_app x [] H), strip_nil. apply app_nil_r.
+Qed.
+
+Lemma strip_head (c : N) (r : bytes) : c = 63 \/ c = 35 -> strip_query_fragment (c :: r) = [].
+Proof.
+  intros [E|E]; subst c; unfold strip_query_fragment.
+  - change (63 :: r) with ([63] ++ r).
+    rewrite (split_at_app_none (N.eqb 35) [63] r [] eq_refl). reflexivity.
+  - reflexivity.
+Qed.
+
+Lemma strip_qf (x qf : bytes) : no_qf x -> qf_ok qf -> strip_query_fragment (x ++ qf) = x.
+Proof.
+  intros Hx [E|[c [r [E Hc]]]]; subst qf.
+  - rewrite app_nil_r. apply strip_no_qf, Hx.
+  - rewrite (strip_app x _ Hx), (strip_head c r Hc). apply app_nil_r.
+Qed.
+
+Lemma none_sat_app_l (p : N -> bool) (a b : bytes) : none_sat p (a ++ b) = true -> none_sat p a = true.
+Proof. rewrite none_sat_app. intros H. apply andb_true_iff in H. apply H. Qed.
+
+(* every string is its stripped part followed by a query/fragment part *)
+Lemma strip_decomp (s : bytes) :
+  exists qf, s = strip_query_fragment s ++ qf /\ qf_ok qf /\ no_qf (strip_query_fragment s).
+Proof.
+  unfold strip_query_fragment.
+  destruct (split_at (N.eqb 35) s []) as [x y] eqn:E35. cbn [fst].
+  destruct (split_at (N.eqb 63) x []) as [x2 y2] eqn:E63. cbn [fst].
+  apply split_at_inv in E35. apply split_at_inv in E63.
+  assert (none_sat (N.eqb 35) x = true) as Hx35
+    by (destruct E35 as [[_ [Ex Hn]]|[c [r [_ [_ [Hn _]]]]]]; [subst x; exact Hn|exact Hn]).
+  assert (none_sat (N.eqb 63) x2 = true /\ none_sat (N.eqb 35) x2 = true /\
+          exists q2, x = x2 ++ q2 /\ qf_ok q2) as [H63 [H35 [q2 [Ex Hq2]]]].
+  { destruct E63 as [[_ [Ex Hn]]|[c [r [_ [Ex [Hn Hc]]]]]].
+    - subst x2. repeat split; try assumption. exists []. split; [symmetry; apply app_nil_r|left; reflexivity].
+    - apply N.eqb_eq in Hc. subst c. repeat split; [exact Hn|rewrite Ex in Hx35; apply (none_sat_app_l _ _ _ Hx35)|].
+      exists (63 :: r). split; [exact Ex|]. right. exists 63, r. split; [reflexivity|left; reflexivity]. }
+  assert (no_qf x2) as Hnq by (split; apply none_sat_not_in; assumption).
+  destruct E35 as [[_ [Es _]]|[c [r [_ [Es [_ Hc]]]]]].
+  - exists q2. subst s. repeat split; try assumption; apply Hnq.
+  - apply N.eqb_eq in Hc. subst c. exists (q2 ++ 35 :: r). split; [|split; [|exact Hnq]].
+    + rewrite Es, Ex, <- app_assoc. reflexivity.
+    + destruct Hq2 as [E|[c [r' [E Hc]]]]; subst q2.
+      * right. exists 35, r. split; [reflexivity|right; reflexivity].
+      * right. exists c, (r' ++ 35 :: r). split; [reflexivity|exact Hc].
+Qed.
+
+(* ---- has_dot_segment ------------------------------------------------------- *)
+Definition is_dots (seg : bytes) : bool := bytes_eqb seg [46] || bytes_eqb seg [46; 46].
+Definition dots (seg : bytes) : Prop := seg = [46] \/ seg = [46; 46].
+
+Lemma is_dots_iff (seg : bytes) : is_dots seg = true <-> dots seg.
+Proof. unfold is_dots, dots. rewrite orb_true_iff, !bytes_eqb_eq. reflexivity. Qed.
+
+Lemma hds_nil (cur : bytes) : has_dot_segment [] cur = is_dots (rev cur).
+Proof. cbn [has_dot_segment]. rewrite rev_append_rev, app_nil_r. reflexivity. Qed.
+
+Lemma hds_cons (c : N) (r cur : bytes) :
+  has_dot_segment (c :: r) cur =
+  if c =? 47 then is_dots (rev cur) || has_dot_segment r [] else has_dot_segment r (c :: cur).
+Proof. cbn [has_dot_segment]. rewrite rev_append_rev, app_nil_r. reflexivity. Qed.
+
+(* a path has a dot segment: p = a seg b, seg = "." or "..", a empty or
+   ending in '/', b empty or beginning with '/' *)
+Definition ends47 (a : bytes) : Prop := a = [] \/ exists a', a = a' ++ [47].
+Definition begins47 (b : bytes) : Prop := b = [] \/ exists b', b = 47 :: b'.
+Definition dot_segment_in (p : bytes) : Prop :=
+  exists a seg b, p = a ++ seg ++ b /\ dots seg /\ ends47 a /\ begins47 b.
+
+Lemma dots_no47 (seg : bytes) : dots seg -> ~ In 47 seg.
+Proof. intros [E|E]; subst seg; cbn [In]; intros H; repeat (destruct H as [H|H]; [discriminate H|]); exact H. Qed.
+
+(* the first '/' of a string is where it is *)
+Lemma first47_unique (u : bytes) : forall x y v,
+  ~ In 47 u -> x ++ 47 :: y = u ++ 47 :: v ->
+  (x = u /\ y = v) \/ exists w, x = u ++ 47 :: w /\ v = w ++ 47 :: y.
+Proof.
+  induction u as [|c u IH]; intros x y v Hu E.
+  - destruct x as [|d x].
+    + left. cbn [app] in E. injection E as E. split; [reflexivity|exact E].
+    + cbn [app] in E. injection E as E1 E2. subst d. right. exists x. split; [reflexivity|symmetry; exact E2].
+  - destruct x as [|d x].
+    + cbn [app] in E. injection E as E1 E2. subst c. exfalso. apply Hu. left. reflexivity.
+    + cbn [app] in E. injection E as E1 E2. subst d.
+      assert (~ In 47 u) as Hu' by (intros H; apply Hu; right; exact H).
+      destruct (IH x y v Hu' E2) as [[Ex Ey]|[w [Ex Ev]]].
+      * left. subst. split; reflexivity.
+      * right. exists w. subst x. split; [reflexivity|exact Ev].
+Qed.
+
+Lemma hds_fwd (p : bytes) : forall cur,
+  has_dot_segment p cur = true ->
+  exists a seg b, rev cur ++ p = a ++ seg ++ b /\ dots seg /\ ends47 a /\ begins47 b.
+Proof.
+  induction p as [|c r IH]; intros cur H.
+  - rewrite hds_nil in H. apply is_dots_iff in H. exists [], (rev cur), [].
+    split; [|split; [|split]]; [cbn [app]; rewrite !app_nil_r; reflexivity|exact H|left; reflexivity|left; reflexivity].
+  - rewrite hds_cons in H. destruct (N.eqb_spec c 47) as [E|E].
+    + subst c. apply orb_true_iff in H. destruct H as [H|H].
+      * apply is_dots_iff in H. exists [], (rev cur), (47 :: r).
+        split; [|split; [|split]]; [reflexivity|exact H|left; reflexivity|right; exists r; reflexivity].
+      * destruct (IH [] H) as [a [seg [b [Ep [Hs [Ha Hb]]]]]]. cbn [rev app] in Ep.
+        exists (rev cur ++ 47 :: a), seg, b. split; [|split; [|split]]; try assumption.
+        -- rewrite Ep, <- app_assoc. reflexivity.
+        -- right. destruct Ha as [Ea|[a' Ea]]; subst a.
+           ++ exists (rev cur). reflexivity.
+           ++ exists (rev cur ++ 47 :: a'). rewrite <- app_assoc. reflexivity.
+    + destruct (IH (c :: cur) H) as [a [seg [b [Ep [Hs [Ha Hb]]]]]].
+      exists a, seg, b. split; [|split; [|split]]; try assumption.
+      rewrite <- Ep. cbn [rev]. rewrite <- app_assoc. reflexivity.
+Qed.
+
+Lemma hds_bwd (p : bytes) : forall cur a seg b,
+  ~ In 47 cur -> rev cur ++ p = a ++ seg ++ b -> dots seg -> ends47 a -> begins47 b ->
+  has_dot_segment p cur = true.
+Proof.
+  induction p as [|c r IH]; intros cur a seg b Hcur Ep Hs Ha Hb.
+  - rewrite hds_nil. apply is_dots_iff. rewrite app_nil_r in Ep.
+    assert (~ In 47 (a ++ seg ++ b)) as Hn by (rewrite <- Ep, <- in_rev; exact Hcur).
+    destruct Ha as [Ea|[a' Ea]]; subst a.
+    2:{ exfalso. apply Hn. rewrite <- app_assoc. apply in_or_app. right. left. reflexivity. }
+    destruct Hb as [Eb|[b' Eb]]; subst b.
+    2:{ exfalso. apply Hn. cbn [app]. apply in_or_app. right. left. reflexivity. }
+    cbn [app] in Ep. rewrite app_nil_r in Ep. rewrite Ep. exact Hs.
+  - rewrite hds_cons. destruct (N.eqb_spec c 47) as [E|E].
+    + subst c. apply orb_true_iff.
+      assert (~ In 47 (rev cur)) as Hrc by (rewrite <- in_rev; exact Hcur).
+      destruct Ha as [Ea|[a' Ea]]; subst a.
+      * cbn [app] in Ep. destruct Hb as [Eb|[b' Eb]]; subst b.
+        -- exfalso. rewrite app_nil_r in Ep. apply (dots_no47 seg Hs). rewrite <- Ep.
+           apply in_or_app. right. left. reflexivity.
+        -- symmetry in Ep. destruct (first47_unique (rev cur) seg b' r Hrc Ep) as [[E1 _]|[w [E1 _]]].
+           ++ left. apply is_dots_iff. rewrite <- E1. exact Hs.
+           ++ exfalso. apply (dots_no47 seg Hs). rewrite E1. apply in_or_app. right. left. reflexivity.
+      * right. rewrite <- app_assoc in Ep. cbn [app] in Ep. symmetry in Ep.
+        destruct (first47_unique (rev cur) a' (seg ++ b) r Hrc Ep) as [[_ E2]|[w [_ E2]]].
+        -- apply (IH [] [] seg b); [intros []|cbn [rev app]; symmetry; exact E2|exact Hs|left; reflexivity|exact Hb].
+        -- apply (IH [] (w ++ [47]) seg b); [intros []| |exact Hs|right; exists w; reflexivity|exact Hb].
+           cbn [rev app]. rewrite E2, <- app_assoc. reflexivity.
+    + apply (IH (c :: cur) a seg b); try assumption.
+      * intros [H|H]; [apply E; exact H|exact (Hcur H)].
+      * cbn [rev]. rewrite <- app_assoc. exact Ep.
+Qed.
+
+Theorem has_dot_segment_iff (p : bytes) : has_dot_segment p [] = true <-> dot_segment_in p.
+Proof.
+  split.
+  - intros H. exact (hds_fwd p [] H).
+  - intros [a [seg [b [Ep [Hs [Ha Hb]]]]]]. apply (hds_bwd p [] a seg b); try assumption. intros [].
+Qed.
+
+(* x "/" seg b, seg a dot segment, b empty or beginning with '/' *)
+Lemma hds_mid (seg b : bytes) : dots seg -> begins47 b -> forall x cur,
+  has_dot_segment (x ++ 47 :: seg ++ b) cur = true.
+Proof.
+  intros Hs Hb. induction x as [|c x IH]; intros cur.
+  - cbn [app]. rewrite hds_cons. cbn [N.eqb Pos.eqb]. apply orb_true_iff. right.
+    apply has_dot_segment_iff. exists [], seg, b.
+    split; [|split; [|split]]; [reflexivity|exact Hs|left; reflexivity|exact Hb].
+  - cbn [app]. rewrite hds_cons. destruct (c =? 47).
+    + rewrite IH. apply orb_true_r.
+    + apply IH.
 Qed.
 
 (* ---- getScheme ----------------------------------------------------------- *)
@@ -305,6 +511,7 @@ Definition strip_dslash (l : bytes) : option bytes :=
   | _ => None
   end.
 
+(* base_dir after the query and fragment are gone *)
 Definition base_dir' (base : bytes) : option bytes :=
   match get_scheme base O [] base with
   | Some (sch, rest) =>
@@ -319,7 +526,7 @@ Definition base_dir' (base : bytes) : option bytes :=
                    | [] => None
                    | _ =>
                        let p := match path with Some p => 47 :: p | None => [47] end in
-                       if negb (forallb plain_path_char p) then None
+                       if negb (forallb plain_path_char p) || has_dot_segment p [] then None
                        else Some (lower sch ++ [58; 47; 47] ++ auth ++ last_slash_prefix p [] [])
                    end
           end
@@ -328,9 +535,10 @@ Definition base_dir' (base : bytes) : option bytes :=
   | None => None
   end.
 
-Lemma base_dir_eq (base : bytes) : base_dir base = base_dir' base.
+Lemma base_dir_eq (base0 : bytes) : base_dir base0 = base_dir' (strip_query_fragment base0).
 Proof.
-  unfold base_dir, base_dir'.
+  unfold base_dir, base_dir'. generalize (strip_query_fragment base0) as base. intros base.
+  cbv zeta.
   destruct (get_scheme base O [] base) as [[sch rest]|]; [|reflexivity].
   destruct rest as [|c1 rest]; [reflexivity|].
   destruct (N.eqb_spec c1 47) as [E1|E1].
@@ -353,27 +561,51 @@ Proof.
   cbn [andb]. intros H. injection H as H. subst. reflexivity.
 Qed.
 
+(* B. the query and the fragment of the base do not matter *)
+Theorem base_dir_ignores_qf (b qf : bytes) :
+  no_qf b -> qf_ok qf -> base_dir (b ++ qf) = base_dir b.
+Proof.
+  intros Hb Hq. rewrite !base_dir_eq, (strip_qf b qf Hb Hq), (strip_no_qf b Hb). reflexivity.
+Qed.
+
+Theorem base_dir_ignores_query_fragment (b q : bytes) :
+  no_qf b -> base_dir (b ++ [63] ++ q) = base_dir b /\ base_dir (b ++ [35] ++ q) = base_dir b.
+Proof.
+  intros Hb. split; apply base_dir_ignores_qf; try exact Hb; right.
+  - exists 63, q. split; [reflexivity|left; reflexivity].
+  - exists 35, q. split; [reflexivity|right; reflexivity].
+Qed.
+
+(* in general: base_dir only looks at what is left of the first '?' / '#' *)
+Theorem base_dir_strip (base : bytes) : base_dir base = base_dir (strip_query_fragment base).
+Proof.
+  destruct (strip_decomp base) as [qf [E [Hq Hn]]]. rewrite E at 1. apply base_dir_ignores_qf; assumption.
+Qed.
+
 (* the directory part: starts and ends with '/', plain characters only *)
 Definition dir_ok (dir : bytes) : Prop :=
   (exists d, dir = 47 :: d) /\ (exists d, dir = d ++ [47]) /\ forallb plain_path_char dir = true.
 
 Theorem base_dir_shape (base bd : bytes) :
   base_dir base = Some bd ->
-  exists sch auth dir,
+  exists sch auth dir qf,
     bd = lower sch ++ [58; 47; 47] ++ auth ++ dir /\
     scheme_ok sch /\
     authority_known auth = true /\ auth <> [] /\ ~ In 47 auth /\
-    dir_ok dir /\
-    ((base = sch ++ [58; 47; 47] ++ auth /\ dir = [47]) \/
-     (exists t, base = sch ++ [58; 47; 47] ++ auth ++ dir ++ t /\ ~ In 47 t)).
+    dir_ok dir /\ qf_ok qf /\
+    ((base = sch ++ [58; 47; 47] ++ auth ++ qf /\ dir = [47]) \/
+     (exists t, base = sch ++ [58; 47; 47] ++ auth ++ dir ++ t ++ qf /\ ~ In 47 t /\
+                forallb plain_path_char t = true /\ has_dot_segment (dir ++ t) [] = false)).
 Proof.
-  rewrite base_dir_eq. unfold base_dir'. intros H.
-  destruct (get_scheme base O [] base) as [[sch rest]|] eqn:Eg; [|discriminate H].
+  rewrite base_dir_eq. destruct (strip_decomp base) as [qf [Ebase [Hqf _]]].
+  revert Ebase. generalize (strip_query_fragment base) as core. intros core Ebase.
+  unfold base_dir'. intros H.
+  destruct (get_scheme core O [] core) as [[sch rest]|] eqn:Eg; [|discriminate H].
   destruct (strip_dslash rest) as [r|] eqn:Er; [|discriminate H].
   apply strip_dslash_some in Er. subst rest.
   destruct sch as [|s0 s'] eqn:Esch; [discriminate H|]. rewrite <- Esch in *.
   assert (sch <> []) as Hne by (rewrite Esch; discriminate).
-  destruct (get_scheme_inv base O [] base sch _ Eg Hne) as [s1 [E1 [E2 [E3 E4]]]].
+  destruct (get_scheme_inv core O [] core sch _ Eg Hne) as [s1 [E1 [E2 [E3 E4]]]].
   cbn [app] in E1. subst s1. specialize (E4 eq_refl).
   clear Esch s0 s'.
   destruct (split_at (N.eqb 47) r []) as [auth path] eqn:Es.
@@ -383,10 +615,12 @@ Proof.
   cbv zeta in H.
   destruct (forallb plain_path_char match path with Some p => 47 :: p | None => [47] end) eqn:Ep;
     [|discriminate H].
-  cbn [negb] in H. injection H as H.
+  cbn [negb orb] in H.
+  destruct (has_dot_segment _ []) eqn:Edot; [discriminate H|].
+  injection H as H.
   exists sch, auth.
   apply split_at_inv in Es. destruct Es as [[Ey [Ex Hn]]|[c [r' [Ey [Ex [Hn Hc]]]]]].
-  - subst path. subst r. exists [47]. repeat split.
+  - subst path. subst r. exists [47], qf. repeat split.
     + rewrite <- H. reflexivity.
     + exact E3.
     + exact E4.
@@ -395,10 +629,15 @@ Proof.
     + apply none_sat_not_in, Hn.
     + exists []. reflexivity.
     + exists []. reflexivity.
-    + left. split; [|reflexivity]. rewrite E2. reflexivity.
+    + exact Hqf.
+    + left. split; [|reflexivity]. rewrite Ebase, E2. rewrite <- app_assoc. reflexivity.
   - subst path. apply N.eqb_eq in Hc. subst c.
     destruct (lsp_path r') as [d [t [Ed [Ht El]]]]. rewrite El in H.
-    exists (d ++ [47]). repeat split.
+    assert (forallb plain_path_char (d ++ [47]) = true /\ forallb plain_path_char t = true) as [Hpd Hpt].
+    { rewrite Ed in Ep. rewrite forallb_app in *. cbn [forallb] in *.
+      apply andb_true_iff in Ep. destruct Ep as [Ep1 Ep2]. apply andb_true_iff in Ep2.
+      destruct Ep2 as [_ Ep2]. rewrite Ep1. split; [reflexivity|exact Ep2]. }
+    exists (d ++ [47]), qf. repeat split.
     + rewrite <- H. reflexivity.
     + exact E3.
     + exact E4.
@@ -408,10 +647,14 @@ Proof.
     + destruct d as [|d0 d']; [exists []; reflexivity|].
       cbn [app] in Ed. injection Ed as Ed0 Ed1. subst d0. exists (d' ++ [47]). reflexivity.
     + exists d. reflexivity.
-    + rewrite Ed in Ep. rewrite forallb_app in *. cbn [forallb] in *.
-      apply andb_true_iff in Ep. destruct Ep as [Ep1 Ep2]. rewrite Ep1. reflexivity.
-    + right. exists t. split; [|apply none_sat_not_in, Ht].
-      rewrite E2, Ex. rewrite <- (app_assoc d [47] t). cbn [app]. rewrite <- Ed. reflexivity.
+    + exact Hpd.
+    + exact Hqf.
+    + right. exists t. split; [|split; [apply none_sat_not_in, Ht|split; [exact Hpt|]]].
+      * rewrite Ebase, E2, Ex.
+        replace ((d ++ [47]) ++ t ++ qf) with ((47 :: r') ++ qf)
+          by (rewrite Ed, <- !app_assoc; reflexivity).
+        rewrite <- !app_assoc. cbn [app]. rewrite <- !app_assoc. reflexivity.
+      * rewrite <- (app_assoc d [47] t). cbn [app]. rewrite <- Ed. exact Edot.
 Qed.
 
 (* ---- directory URL ++ escaped path --------------------------------------- *)
@@ -512,7 +755,7 @@ Theorem base_dir_url_ref (base bd : bytes) :
     (url_ref bd = RUnknown <-> (exists t, dir = 47 :: 47 :: t)).
 Proof.
   intros Hb. destruct (base_dir_shape base bd Hb) as
-    [sch [auth [dir [Ebd [Hsch [Hauth [Hane [Hns [Hdir _]]]]]]]]].
+    [sch [auth [dir [qf [Ebd [Hsch [Hauth [Hane [Hns [Hdir _]]]]]]]]]].
   exists sch, auth, dir.
   refine (conj Ebd (conj Hsch (conj Hauth (conj Hane (conj Hns (conj Hdir (conj _ _))))))); split.
   - intros Hu t E. destruct Hdir as [_ [_ Hp]]. subst dir.
@@ -556,6 +799,49 @@ Proof.
   - intros Hne. apply shape_dir_ok; assumption.
 Qed.
 
+(* url_ref never answers RErr on base_dir's result: accepted or undecided *)
+Theorem base_dir_url_ref_cases (base bd : bytes) :
+  base_dir base = Some bd -> url_ref bd = ROk true false false \/ url_ref bd = RUnknown.
+Proof.
+  intros Hb. destruct (base_dir_url_ref base bd Hb) as
+    [sch [auth [dir [_ [_ [_ [_ [_ [Hdir [Hok Hun]]]]]]]]]].
+  destruct Hdir as [[d Ed] _]. destruct d as [|c t].
+  - left. apply Hok. intros t E. subst dir. discriminate E.
+  - destruct (N.eqb_spec c 47) as [E|E].
+    + subst c. right. apply Hun. exists t. exact Ed.
+    + left. apply Hok. intros t' E'. subst dir. injection E' as E1 E2. contradiction.
+Qed.
+
+(* the same with the weakest premise: url_ref does decide the directory URL *)
+Theorem dir_url_accepted_min (base bd r : bytes) :
+  base_dir base = Some bd ->
+  url_ref bd <> RUnknown ->
+  wfb r -> (forall t, r <> 47 :: t) ->
+  url_ref bd = ROk true false false /\
+  url_ref (bd ++ escape_path r) = ROk true false false /\
+  (r <> [] -> url_ref (bd ++ escape_path r ++ [47]) = ROk true false false).
+Proof.
+  intros Hb Hu Hr Hrs.
+  destruct (base_dir_url_ref_cases base bd Hb) as [Hok|Hun]; [|contradiction].
+  split; [exact Hok|]. exact (dir_url_accepted base bd r Hb Hok Hr Hrs).
+Qed.
+
+(* undecided exactly when the base's path begins with "//"; then every URL
+   below it is undecided as well *)
+Theorem dir_url_unknown (base bd r : bytes) :
+  base_dir base = Some bd -> url_ref bd = RUnknown -> wfb r ->
+  url_ref (bd ++ escape_path r) = RUnknown.
+Proof.
+  intros Hb Hu Hr.
+  destruct (base_dir_url_ref base bd Hb) as
+    [sch [auth [dir [Ebd [Hsch [Hauth [Hane [_ [Hdir [_ Hun]]]]]]]]]].
+  apply Hun in Hu. destruct Hu as [t Et]. destruct Hdir as [_ [_ Hp]]. subst dir.
+  cbn [forallb] in Hp. apply andb_true_iff in Hp. destruct Hp as [_ Hp].
+  pose proof (url_ref_shape sch auth (47 :: t) (escape_path r) Hsch Hauth Hane Hp
+                (escape_stable r Hr) (escape_escapes_ok r Hr)) as H.
+  cbn [app starts47 N.eqb Pos.eqb] in H. subst bd. rewrite <- !app_assoc. exact H.
+Qed.
+
 (* ---- converse: everything of that shape is in base_dir's domain ----------- *)
 Lemma lsp_no47 (t : bytes) : forall acc cur,
   none_sat (N.eqb 47) t = true -> last_slash_prefix t acc cur = rev acc.
@@ -580,27 +866,143 @@ Proof.
     + rewrite (IH _ _ Ht). cbn [rev]. rewrite <- !app_assoc. reflexivity.
 Qed.
 
-Theorem base_dir_complete (sch auth dir t : bytes) :
+Theorem base_dir_complete (sch auth dir t qf : bytes) :
   scheme_ok sch -> authority_known auth = true -> auth <> [] -> dir_ok dir ->
-  forallb plain_path_char t = true -> ~ In 47 t ->
-  base_dir (sch ++ [58; 47; 47] ++ auth ++ dir ++ t) = Some (lower sch ++ [58; 47; 47] ++ auth ++ dir).
+  forallb plain_path_char t = true -> ~ In 47 t -> has_dot_segment (dir ++ t) [] = false ->
+  qf_ok qf ->
+  base_dir (sch ++ [58; 47; 47] ++ auth ++ dir ++ t ++ qf) = Some (lower sch ++ [58; 47; 47] ++ auth ++ dir).
 Proof.
-  intros [Hs1 Hs2] Hauth Hane [[d Ed] [[d' Ed'] Hp]] Ht Hnt.
-  rewrite base_dir_eq. unfold base_dir'. cbn [app].
+  intros [Hs1 Hs2] Hauth Hane [[d Ed] [[d' Ed'] Hp]] Ht Hnt Hdot Hqf.
+  pose proof (authority_chars auth Hauth) as Hac.
+  assert (forallb stable_char (sch ++ [58; 47; 47] ++ auth ++ dir ++ t) = true) as Hst.
+  { rewrite !forallb_app.
+    rewrite (forallb_impl _ _ sch scheme_char_stable Hs1).
+    rewrite (forallb_impl _ _ auth (fun c Hc => proj1 (auth_char_stable c Hc)) Hac).
+    rewrite (plain_stable dir Hp), (plain_stable t Ht). reflexivity. }
+  assert (no_qf (sch ++ [58; 47; 47] ++ auth ++ dir ++ t)) as Hnq.
+  { split; apply none_sat_not_in; (apply stable_none; [reflexivity|exact Hst]). }
+  replace (sch ++ [58; 47; 47] ++ auth ++ dir ++ t ++ qf)
+    with ((sch ++ [58; 47; 47] ++ auth ++ dir ++ t) ++ qf)
+    by (reassoc; reflexivity).
+  rewrite (base_dir_ignores_qf _ qf Hnq Hqf).
+  rewrite base_dir_eq, (strip_no_qf _ Hnq). unfold base_dir'. cbn [app].
   rewrite (get_scheme_fwd sch O [] _ _ Hs1 (fun _ => Hs2)). cbn [app strip_dslash N.eqb Pos.eqb andb].
   destruct Hs2 as [c0 [t0 [Es _]]]. rewrite Es at 1.
   assert (none_sat (N.eqb 47) auth = true) as Hna.
-  { pose proof (authority_chars auth Hauth) as Hac. revert Hac. apply none_sat_weaken.
+  { revert Hac. apply none_sat_weaken.
     intros c Hc. apply N.eqb_neq. apply auth_char_stable in Hc. intros E. destruct Hc as [_ Hc]. congruence. }
   rewrite Ed at 1. cbn [app]. rewrite (split_at_some (N.eqb 47) auth 47 (d ++ t) [] Hna eq_refl).
   cbn [rev app]. rewrite Hauth. cbn [negb].
   destruct auth as [|a0 a']; [contradiction|].
   cbv zeta.
-  assert (47 :: d ++ t = d' ++ 47 :: t) as Ep.
-  { change (47 :: d ++ t) with ((47 :: d) ++ t). rewrite <- Ed, Ed', <- app_assoc. reflexivity. }
-  rewrite Ep.
-  assert (forallb plain_path_char (d' ++ 47 :: t) = true) as Hpp.
-  { rewrite <- Ep. change (47 :: d ++ t) with ((47 :: d) ++ t). rewrite <- Ed, forallb_app, Hp, Ht. reflexivity. }
-  rewrite Hpp. cbn [negb].
-  rewrite lsp_fwd by (apply none_sat_not_in, Hnt). cbn [rev app]. rewrite <- Ed'. reflexivity.
+  assert (47 :: d ++ t = dir ++ t) as Ep0 by (rewrite Ed; reflexivity).
+  rewrite Ep0, Hdot.
+  assert (dir ++ t = d' ++ 47 :: t) as Ep by (rewrite Ed', <- app_assoc; reflexivity).
+  rewrite forallb_app, Hp, Ht. cbn [negb andb orb].
+  rewrite Ep, lsp_fwd by (apply none_sat_not_in, Hnt). cbn [rev app]. rewrite <- Ed'. reflexivity.
+Qed.
+
+(* a base without a path: the directory is "/" *)
+Theorem base_dir_complete_nopath (sch auth qf : bytes) :
+  scheme_ok sch -> authority_known auth = true -> auth <> [] -> qf_ok qf ->
+  base_dir (sch ++ [58; 47; 47] ++ auth ++ qf) = Some (lower sch ++ [58; 47; 47] ++ auth ++ [47]).
+Proof.
+  intros [Hs1 Hs2] Hauth Hane Hqf.
+  pose proof (authority_chars auth Hauth) as Hac.
+  assert (forallb stable_char (sch ++ [58; 47; 47] ++ auth) = true) as Hst.
+  { rewrite !forallb_app.
+    rewrite (forallb_impl _ _ sch scheme_char_stable Hs1).
+    rewrite (forallb_impl _ _ auth (fun c Hc => proj1 (auth_char_stable c Hc)) Hac). reflexivity. }
+  assert (no_qf (sch ++ [58; 47; 47] ++ auth)) as Hnq.
+  { split; apply none_sat_not_in; (apply stable_none; [reflexivity|exact Hst]). }
+  replace (sch ++ [58; 47; 47] ++ auth ++ qf) with ((sch ++ [58; 47; 47] ++ auth) ++ qf)
+    by (reassoc; reflexivity).
+  rewrite (base_dir_ignores_qf _ qf Hnq Hqf).
+  rewrite base_dir_eq, (strip_no_qf _ Hnq). unfold base_dir'. cbn [app].
+  rewrite (get_scheme_fwd sch O [] _ _ Hs1 (fun _ => Hs2)). cbn [app strip_dslash N.eqb Pos.eqb andb].
+  destruct Hs2 as [c0 [t0 [Es _]]]. rewrite Es at 1.
+  assert (none_sat (N.eqb 47) auth = true) as Hna.
+  { revert Hac. apply none_sat_weaken.
+    intros c Hc. apply N.eqb_neq. apply auth_char_stable in Hc. intros E. destruct Hc as [_ Hc]. congruence. }
+  rewrite (split_at_none (N.eqb 47) auth [] Hna). cbn [rev app]. rewrite Hauth. cbn [negb].
+  destruct auth as [|a0 a']; [contradiction|]. reflexivity.
+Qed.
+
+(* shape and converse together: base_dir base = Some bd exactly for the bases
+   of the class, with that bd *)
+Theorem base_dir_iff (base bd : bytes) :
+  base_dir base = Some bd <->
+  exists sch auth dir qf,
+    bd = lower sch ++ [58; 47; 47] ++ auth ++ dir /\
+    scheme_ok sch /\ authority_known auth = true /\ auth <> [] /\ dir_ok dir /\ qf_ok qf /\
+    ((base = sch ++ [58; 47; 47] ++ auth ++ qf /\ dir = [47]) \/
+     (exists t, base = sch ++ [58; 47; 47] ++ auth ++ dir ++ t ++ qf /\ ~ In 47 t /\
+                forallb plain_path_char t = true /\ has_dot_segment (dir ++ t) [] = false)).
+Proof.
+  split.
+  - intros H. destruct (base_dir_shape base bd H) as
+      [sch [auth [dir [qf [Ebd [Hsch [Hauth [Hane [_ [Hdir [Hqf Hb]]]]]]]]]]].
+    exists sch, auth, dir, qf. repeat (split; [assumption|]). exact Hb.
+  - intros [sch [auth [dir [qf [Ebd [Hsch [Hauth [Hane [Hdir [Hqf Hb]]]]]]]]]].
+    destruct Hb as [[Eb Ed]|[t [Eb [Hnt [Ht Hdot]]]]]; subst base bd.
+    + subst dir. apply base_dir_complete_nopath; assumption.
+    + apply base_dir_complete; assumption.
+Qed.
+
+(* B. a "." or ".." segment anywhere in the base's path: outside the class.
+   The base is scheme "://" auth a "/" seg b with seg = "." or ".." and b
+   empty or beginning with '/', '?' or '#'; a is the path before the segment
+   (no '?', '#'; need not be in the plain alphabet). *)
+Theorem base_dir_dot_segment_none (sch auth a seg b : bytes) :
+  scheme_ok sch -> ~ In 47 auth -> no_qf auth -> no_qf a -> dots seg ->
+  (b = [] \/ exists c r, b = c :: r /\ (c = 47 \/ c = 63 \/ c = 35)) ->
+  base_dir (sch ++ [58; 47; 47] ++ auth ++ a ++ [47] ++ seg ++ b) = None.
+Proof.
+  intros [Hs1 Hs2] Hna [Ha63 Ha35] [Hp63 Hp35] Hseg Hb.
+  assert (no_qf sch) as [Hs63 Hs35].
+  { split; apply none_sat_not_in; (apply stable_none; [reflexivity|]);
+      (revert Hs1; apply forallb_impl; exact scheme_char_stable). }
+  assert (no_qf seg) as [Hg63 Hg35]
+    by (destruct Hseg as [E|E]; subst seg; split; cbn [In]; intros H;
+        repeat (destruct H as [H|H]; [discriminate H|]); exact H).
+  set (pre := sch ++ [58; 47; 47] ++ auth ++ a ++ [47] ++ seg).
+  assert (no_qf pre) as Hpre.
+  { unfold pre. split; intros H; repeat (apply in_app_or in H; destruct H as [H|H]); try contradiction;
+      cbn [In] in H; repeat (destruct H as [H|H]; [discriminate H|]); exact H. }
+  assert (exists b', begins47 b' /\ strip_query_fragment (pre ++ b) = pre ++ b') as [b' [Hb' Est]].
+  { rewrite (strip_app pre b Hpre). destruct Hb as [E|[c [r [E Hc]]]]; subst b.
+    - exists []. split; [left; reflexivity|reflexivity].
+    - destruct Hc as [Hc|Hc].
+      + subst c. destruct (strip_decomp (47 :: r)) as [qf [E [_ _]]].
+        destruct (strip_query_fragment (47 :: r)) as [|x y] eqn:Ex.
+        * exists []. split; [left; reflexivity|reflexivity].
+        * exists (x :: y). split; [|reflexivity]. right. exists y.
+          cbn [app] in E. injection E as E1 E2. subst x. reflexivity.
+      + rewrite (strip_head c r Hc). exists []. split; [left; reflexivity|reflexivity]. }
+  replace (sch ++ [58; 47; 47] ++ auth ++ a ++ [47] ++ seg ++ b) with (pre ++ b)
+    by (unfold pre; reassoc; reflexivity).
+  rewrite base_dir_eq, Est. unfold pre, base_dir'. reassoc.
+  rewrite (get_scheme_fwd sch O [] _ _ Hs1 (fun _ => Hs2)). cbn [app strip_dslash N.eqb Pos.eqb andb].
+  destruct Hs2 as [c0 [t0 [Es _]]]. rewrite Es at 1.
+  apply none_sat_not_in in Hna.
+  (* where is the first '/' after "//" : in a, or the one before seg *)
+  assert (exists auth' x, split_at (N.eqb 47) (auth ++ a ++ 47 :: seg ++ b') [] =
+                          (auth', Some (x ++ seg ++ b')) /\ (x = [] \/ exists x', x = x' ++ [47]))
+    as [auth' [x [Esp Hx]]].
+  { destruct (first_sat (N.eqb 47) a) as [Hn|[a1 [c [a2 [E [Ha1 Hc]]]]]].
+    - exists (auth ++ a), []. split; [|left; reflexivity].
+      rewrite app_assoc. apply (split_at_some (N.eqb 47) (auth ++ a) 47 _ []); [|reflexivity].
+      rewrite none_sat_app, Hna, Hn. reflexivity.
+    - apply N.eqb_eq in Hc. subst c a. exists (auth ++ a1), (a2 ++ [47]). split; [|right; exists a2; reflexivity].
+      rewrite <- !app_assoc. cbn [app]. rewrite app_assoc.
+      apply (split_at_some (N.eqb 47) (auth ++ a1) 47 _ []); [|reflexivity].
+      rewrite none_sat_app, Hna, Ha1. reflexivity. }
+  cbn [app] in Esp |- *. rewrite Esp.
+  destruct (authority_known auth'); [|reflexivity]. cbn [negb].
+  destruct auth' as [|a0 a']; [reflexivity|]. cbv zeta.
+  assert (has_dot_segment (47 :: x ++ seg ++ b') [] = true) as Hd.
+  { destruct Hx as [E|[x' E]]; subst x.
+    - apply (hds_mid seg b' Hseg Hb' [] []).
+    - rewrite <- app_assoc. cbn [app]. apply (hds_mid seg b' Hseg Hb' (47 :: x') []). }
+  rewrite Hd. rewrite orb_true_r. reflexivity.
 Qed.
